@@ -153,7 +153,8 @@ def program_request(text, options, rp="-", optargs=None):
     ch = chains_of_optargs(optargs) if optargs is not None else getattr(options, "chains", None)
     gw = ",".join(str(common.bits(float(x))) for x in tuple(getattr(options, "grid", (0.0, 14.0, 0.1))) + tuple(getattr(options, "window", (0.0, 14.0, 1.0))))
     return "pipe pdb %s %s %s %s %s default %s %s" % (
-        rp, "1" if getattr(options, "protonate_all", False) else "0", to_arg(options), "1" if getattr(options, "keep_protons", False) else "0",
+        rp, "1" if getattr(options, "protonate_all", False) else "0", to_arg(options),
+        ("1" if getattr(options, "keep_protons", False) else "0") + ("d" if getattr(options, "display_coupled_residues", False) else ""),
         ",".join(hx(c) for c in ch) if ch else "-", gw, ",".join(hx(l) for l in raw) or "-")
 
 
@@ -180,7 +181,7 @@ def run_program(text, optargs):
     if not all(p[7] for p in rec.pipes):
         return None
     avr = None
-    if "AVR" in mol.conformations and not getattr(mol.options, "display_coupled_residues", False):
+    if "AVR" in mol.conformations:
         avr = []
         for g in mol.conformations["AVR"].groups:
             d = lambda t: ",".join("%s:%d" % (hx(x.label), common.bits(float(x.value))) for x in g.determinants[t]) or "-"
